@@ -27,7 +27,7 @@ ASSUMPTIONS = [
     'vf/shims/portion.py (integer interval sets, self-tested) stands in for the portion package',
 ]
 DECIDING = ['bp.app.fragment:Fragment._reassemble', 'bp.agent:Agent.recv_bundle']
-REQUIRED_OBS = ['arrivals', 'deliveries_due', 'deliveries_seen', 'duplicates_injected', 'interleaved_histories', 'overlapping_sets', 'signed_histories', 'burst_histories', 'whole_adu_histories', 'damaged_copies_injected', 'replayed_histories']
+REQUIRED_OBS = ['arrivals', 'deliveries_due', 'deliveries_seen', 'duplicates_injected', 'interleaved_histories', 'overlapping_sets', 'signed_histories', 'burst_histories', 'whole_adu_histories', 'damaged_copies_injected', 'replayed_histories', 'damaged_primary_copies_injected']
 
 NODE = 'dtn://me/'
 DEST = 'dtn://me/app'
@@ -360,6 +360,34 @@ def run_case(case):
                 seq.insert(seq.index(victim), (vkey, vlo, vlo, bad))
                 obs['damaged_copies_injected'] = obs.get('damaged_copies_injected', 0) + 1
                 play(seq, originals, 'damaged-copy-first')
+        # a copy damaged in its PRIMARY block only (the fragment offset moved onto a later fragment's place; the primary CRC no longer
+        # matches, no other block has a CRC that could fail): no fragment at all either, whatever it claims to cover
+        import copy
+        for perm in list(itertools.permutations(arrivals))[:6]:
+            if len(perm) < 2:
+                break
+            (vkey, vlo, vhi, venc) = perm[0]
+            dec = bpv7.decode(venc)[0]
+            for blk in dec['blocks']:
+                blk['crc_type'], blk['crc'] = 0, None
+            dec['primary']['crc_type'], dec['primary']['crc'] = 1 + (vlo % 2), None
+            good = bpv7.encode(dec)
+            bad_dec = copy.deepcopy(bpv7.decode(good)[0])
+            others = [arr[1] for arr in perm[1:] if arr[1] != vlo]
+            if not others or vhi <= vlo:
+                continue
+            bad_dec['primary']['frag_offset'] = others[-1]
+            bad = bpv7.encode(bad_dec, fix_crc=False)
+            if bpv7.crc_failures(bad) == []:
+                continue
+            for where in (0, len(perm) - 1):
+                seq = [(vkey, vlo, vhi, good)] + list(perm[1:])
+                seq.insert(where, (vkey, vlo, vlo, bad))
+                if where:
+                    # ... and the fragment it pretends to be never arrives: nothing may be delivered
+                    seq = [arr for arr in seq if arr[1] != others[-1] or arr[3] is bad]
+                obs['damaged_primary_copies_injected'] = obs.get('damaged_primary_copies_injected', 0) + 1
+                play(seq, originals, 'damaged-primary-copy')
     elif kind == 'refrag':
         # the same bundle arrives as two DIFFERENT complete fragmentations (fragmented twice on different paths), one whole set
         # after the other or interleaved, optionally with another bundle in between: still exactly one delivery
